@@ -1041,6 +1041,18 @@ Definition m_apply (m : fmap) (o : kvop) : fmap :=
     end.
 Definition m_run (ops : list kvop) : fmap := fold_left m_apply ops (fun _ => None).
 
+(* ---- copies of a trie (cpy := *t, SecureTrie.Copy): handles with value semantics ---- *)
+
+Inductive hop := HOp (h : nat) (o : kvop) | HCopy (src : nat).
+
+Definition h_apply (hs : list node) (o : hop) : list node :=
+  match o with
+  | HOp j op => set_nth hs j (apply_op (nth j hs Empty) op)
+  | HCopy j => hs ++ [nth j hs Empty]
+  end.
+
+Definition h_run (ops : list hop) : list node := fold_left h_apply ops [Empty].
+
 (* ---- secure_trie.go: every key is hashed first ------------------------------ *)
 
 Section Secure.
@@ -1193,7 +1205,8 @@ Inductive op :=
 | OCommit (root : bytes) (nodes : list (bytes * bytes))               (* Trie.Commit; all nodes held by the Database afterwards *)
 | OReopen                                                              (* trie.New(root, db) *)
 | ODerive (items : list bytes) (root : bytes)                          (* types.DeriveSha *)
-| OKeccak (data h : bytes).                                            (* the table's hash really is Keccak-256 *)
+| OKeccak (data h : bytes)                                             (* the table's hash really is Keccak-256 *)
+| OReset.                                                              (* next handle of a history with copies: start again from the empty trie *)
 
 (* merge node stores, first occurrence of a hash wins (Database.insert skips known hashes) *)
 Fixpoint db_merge (db add : list (bytes * bytes)) : list (bytes * bytes) :=
@@ -1311,6 +1324,7 @@ Definition run_op (H : bytes -> bytes) (secure : bool) (s : rstate) (o : op) : r
     end
   | ODerive items root => chk (list_eqb (derive_sha H items) root)
   | OKeccak data h => chk (list_eqb (keccak256 data) h)
+  | OReset => mkR Empty db (r_ok s)
   end.
 
 Definition case_ok (c : case) : bool :=
